@@ -11,23 +11,28 @@ TECH = ("bounded symbolic execution of the real Go code (go/ssa of /repo's worki
 
 # id -> (level text, level note, design ref)
 CLAIMED = {
- "C01": ("Partial (fork matching and chunk-argument merge): fork ids with symbolic array indices on two mapped roots, symbolic "
-         "membership of roots, consumer/reference indices including out-of-range ones, and arbitrary argument keys run through the real "
-         "matchForks, UnmatchedParts, matchFork/Match/Matches/indexEqual/Equal and ChunkDef.MergeArguments; the solver shows the result is "
-         "exactly the in-order filter / the uniquely determined producer fork / the key-wise merge, or yields the ids that break it.",
-         "Trusted: go/ssa, symgo, z3. Outside: static AST resolution, JSON projection, resolveMerge/resolveSplit and getParts, "
-         "top-level _outs, map-key forks and more than two fork dimensions.",
+ "C01": ("Kernels: fork ids with symbolic array indices on two mapped roots, symbolic membership of roots, consumer/reference indices including "
+         "out-of-range ones and arbitrary argument keys run through the real matchForks, UnmatchedParts, matchFork/Match/Matches/indexEqual/Equal and "
+         "ChunkDef.MergeArguments (result = in-order filter / uniquely determined producer fork / key-wise merge). Real dataflow: three MRO texts are "
+         "instantiated by the real compiler and runtime inside the engine; the harness plays the jobs (which forks wrote _outs; arrays of 1..3 (4) and maps of "
+         "1..2 (3) arbitrary digits; flag arbitrary) and the real expandForks / resolveInputs / resolvePipelineOutputs (resolve, resolveRef, resolveSplit, "
+         "resolveMerge, resolveDisabledExp, getParts, Path) must deliver exactly what the text says each call receives: dynamic map call over an array and over "
+         "a typed map, unsplit arguments, merges, a map call nested in a mapped pipeline with producers finishing in any order, struct projection, literals "
+         "with references, a call disabled by an upstream flag, pipeline outputs.",
+         "Trusted: go/ssa, symgo, z3; the reference JSON decoder that replaces encoding/json for the value shapes the harness produces; Metadata.read "
+         "replaced by the harness's choice of _outs. Outside: other programs, strings/floats/nested structs as values, more than two fork dimensions, "
+         "top-level _outs writing.",
          "DESIGN.md §4 (C01)"),
  "C02": ("One step of the real scheduler code (Fork.step/stepStage/doSplit/doChunks/doJoin/doComplete, Chunk.step, Node.step/getState, "
          "runJob) from an arbitrary sentinel-file state: every combination of _errors/_assert/_complete/_disabled/_log/_jobinfo/_stage_defs on "
          "split, chunks, join and fork metadata (= every instant of every schedule) is symbolic under the phase invariant; a recording fake job "
          "manager is the observer. Asserted: chunk jobs only after split complete, join only after all chunks complete, a node submits only "
          "when running and enters running only when producer, disabling source and every enclosing preflight are done.",
-         "Trusted: go/ssa, symgo, z3; the OS-boundary and AST/JSON stubs listed in the evidence (each returns an arbitrary outcome within its contract); the assumed representation invariant PhaseInv; the hand-built graph (one fork per node, <=2 chunks, P{PRE,A,C,Q{R{B}}}) and the MRO text of the real-graph fixture (instantiated by the real compiler and runtime inside the engine). Outside: dynamic fork expansion, real processes and job-manager queues.", "DESIGN.md §4 (C02)"),
+         "Trusted: go/ssa, symgo, z3; the OS-boundary and AST/JSON stubs listed in the evidence (each returns an arbitrary outcome within its contract); the assumed representation invariant PhaseInv; the hand-built graph (one fork per node, <=2 chunks, P{PRE,A,C,Q{R{B}}}) and the MRO text of the real-graph fixture (instantiated by the real compiler and runtime inside the engine). Dynamic fork expansion and static fork enumeration run on instantiated pipelines (H_C01_*). Outside: real processes and job-manager queues.", "DESIGN.md §4 (C02)"),
  "C03": ("Same harness family as C02, plus two consecutive steps with arbitrary job progress and an optional restart in between: no metadata is "
          "handed to execJob twice, a job is submitted only from its empty state and then carries _jobinfo, exactly the chunks _stage_defs lists are "
          "created, a disabled fork submits nothing and is marked disabled; MakeForkIds yields exactly one id per element/key; constant disabling conditions are pruned only when all-false / all-true.",
-         "Trusted: go/ssa, symgo, z3; the OS-boundary and AST/JSON stubs listed in the evidence (each returns an arbitrary outcome within its contract); the assumed representation invariant PhaseInv; the hand-built graph (one fork per node, <=2 chunks, P{PRE,A,C,Q{R{B}}}) and the MRO text of the real-graph fixture (instantiated by the real compiler and runtime inside the engine). Outside: dynamic fork expansion, real processes and job-manager queues. Static fork enumeration (MakeForkIds on static arrays / maps of 1..3 entries) and the compile-time pruning of constant disabling conditions have their own harnesses.", "DESIGN.md §4 (C03)"),
+         "Trusted: go/ssa, symgo, z3; the OS-boundary and AST/JSON stubs listed in the evidence (each returns an arbitrary outcome within its contract); the assumed representation invariant PhaseInv; the hand-built graph (one fork per node, <=2 chunks, P{PRE,A,C,Q{R{B}}}) and the MRO text of the real-graph fixture (instantiated by the real compiler and runtime inside the engine). Dynamic fork expansion and static fork enumeration run on instantiated pipelines (H_C01_*). Outside: real processes and job-manager queues. Static fork enumeration (MakeForkIds on static arrays / maps of 1..3 entries) and the compile-time pruning of constant disabling conditions have their own harnesses.", "DESIGN.md §4 (C03)"),
  "C04": ("Decision and bookkeeping of volatile data removal from the real code: partialVdrKill from arbitrary coarse states of the "
          "producer fork and two consumers with arbitrary keep-alive membership (incl. the top-level/retain holder), and the real "
          "vdrKillSome/vdrKill with os.RemoveAll recorded over a symbolic file cache (directory, file inside it, sibling; arbitrary "
@@ -56,7 +61,7 @@ CLAIMED = {
          "unreadable or invalid outputs, unparseable _stage_defs. Asserted: failure precedence, a failed job fails its fork and node, a failed "
          "node stays on the frontier and the pipestance state is failed never complete, consumers wait and submit nothing, independent stages "
          "are unaffected, invalid outputs write _errors and never _complete; LocalJobManager.Enqueue with the job process replaced by an arbitrary outcome per attempt leaves _errors behind for every failed process, re-runs only spawn failures and at most maxRetries times.",
-         "Trusted: go/ssa, symgo, z3; the OS-boundary and AST/JSON stubs listed in the evidence (each returns an arbitrary outcome within its contract); the assumed representation invariant PhaseInv; the hand-built graph (one fork per node, <=2 chunks, P{PRE,A,C,Q{R{B}}}) and the MRO text of the real-graph fixture (instantiated by the real compiler and runtime inside the engine). Outside: dynamic fork expansion, real processes and job-manager queues. Also outside: mrjob (how the monitor turns an exit status into _errors), transient-error regexps and mrp attemptRetry, mrp exit code, restart after the fault is removed.", "DESIGN.md §4 (C06)"),
+         "Trusted: go/ssa, symgo, z3; the OS-boundary and AST/JSON stubs listed in the evidence (each returns an arbitrary outcome within its contract); the assumed representation invariant PhaseInv; the hand-built graph (one fork per node, <=2 chunks, P{PRE,A,C,Q{R{B}}}) and the MRO text of the real-graph fixture (instantiated by the real compiler and runtime inside the engine). Dynamic fork expansion and static fork enumeration run on instantiated pipelines (H_C01_*). Outside: real processes and job-manager queues. Also outside: mrjob (how the monitor turns an exit status into _errors), transient-error regexps and mrp attemptRetry, mrp exit code, restart after the fault is removed.", "DESIGN.md §4 (C06)"),
  "C08": ("Every byte string up to 3 (thorough 4) bytes is run symbolically through the real lexer step, the scanner loop, and the whole "
          "expression parser (yacc tables + grammar actions); 19/20-digit integer tokens and 8-hex-digit \\U escapes get their own harnesses. "
          "Include resolution (parseSource/getIncludes/checkIncludes/merge) runs on 1..3 (4) files with an arbitrary include relation: an error exactly for reachable cycles, no unbounded recursion. "
